@@ -95,6 +95,16 @@ pub fn run(r: &Run) -> std::io::Result<Out> {
 
 /// Minimal fixed environment for every zerv child.
 pub fn base_env() -> Vec<(String, String)> {
+    let mut v = base_env_unpinned();
+    for k in ["LD_PRELOAD", "ZERV_VERIF_NOW"] {
+        if let Ok(val) = std::env::var(k) {
+            v.push((k.into(), val));
+        }
+    }
+    v
+}
+
+pub fn base_env_unpinned() -> Vec<(String, String)> {
     vec![
         ("PATH".into(), "/usr/local/sbin:/usr/local/bin:/usr/sbin:/usr/bin:/sbin:/bin".into()),
         ("HOME".into(), "/nonexistent".into()),
